@@ -106,6 +106,9 @@ pub enum Op {
     CollectReward { slot: Slot },
     Close { slot: Slot },
     Reset { slot: Slot, to: ResetTo },
+    /// reset_position_range with another pool of the same config and mints in the whirlpool slot and a range that is valid
+    /// for THAT pool but not for the position's own (finer spacing / not full-range-only)
+    ResetForeign { slot: Slot },
     Lock { slot: Slot },
     TransferLocked { slot: Slot },
     /// reposition_liquidity_v2 (Pinocchio): the other way of re-ranging
@@ -123,6 +126,7 @@ impl Op {
             | Op::CollectReward { slot }
             | Op::Close { slot }
             | Op::Reset { slot, .. }
+            | Op::ResetForeign { slot }
             | Op::Lock { slot }
             | Op::TransferLocked { slot }
             | Op::Reposition { slot, .. } => Some(*slot),
@@ -146,6 +150,7 @@ impl Op {
             Op::Close { slot: Slot::T22 } => "close_position_with_token_extensions",
             Op::Close { .. } => "close_position",
             Op::Reset { .. } => "reset_position_range",
+            Op::ResetForeign { .. } => "reset_position_range_foreign_pool",
             Op::Lock { .. } => "lock_position",
             Op::TransferLocked { .. } => "transfer_locked_position",
             Op::Reposition { .. } => "reposition_liquidity_v2",
@@ -282,6 +287,14 @@ impl<'a> LifeModel<'a> {
             Slot::B(i) => i % 2 == 1,
         }
     }
+    /// (foreign pool, range valid there but not in the position's own pool)
+    fn foreign_target(&self, g: &PosG) -> (solana_program::pubkey::Pubkey, i32, i32) {
+        if g.pool == FRO {
+            (self.w.pools[MAIN].addr, RANGE_B.0, RANGE_B.1)
+        } else {
+            (self.w.fine.addr, -3, 7)
+        }
+    }
     /// target range of a Reset / Reposition
     fn target(&self, g: &PosG, to: ResetTo) -> (i32, i32) {
         match to {
@@ -335,6 +348,11 @@ impl<'a> LifeModel<'a> {
                 let (lo, up) = self.target(&g, *to);
                 let ok = g.open && !g.locked && acc.as_ref().map(is_empty).unwrap_or(false) && (lo, up) != (g.lower, g.upper) && valid_range(lo, up, spacing);
                 yes(ok, "reset iff open, not locked, empty, and the new range is valid and different")
+            }
+            Op::ResetForeign { .. } => {
+                let (_, lo, up) = self.foreign_target(&g);
+                debug_assert!(!valid_range(lo, up, spacing));
+                yes(false, "the requested range is not a valid range of the position's own pool, whichever pool account is named")
             }
             Op::Reposition { to, .. } => {
                 let (lo, up) = self.target(&g, *to);
@@ -401,6 +419,10 @@ impl<'a> LifeModel<'a> {
             Op::Reset { slot, to } => {
                 let (lo, up) = self.target(s.g(*slot), *to);
                 svm::process(&mut l, &lw::ix_reset(w, &self.posref(s, *slot), lo, up))
+            }
+            Op::ResetForeign { slot } => {
+                let (pool, lo, up) = self.foreign_target(s.g(*slot));
+                svm::process(&mut l, &lw::ix_reset_with_pool(w, &self.posref(s, *slot), pool, lo, up))
             }
             Op::Reposition { slot, to } => {
                 let (lo, up) = self.target(s.g(*slot), *to);
@@ -561,6 +583,7 @@ impl<'a> LifeModel<'a> {
                 g.lower = lo;
                 g.upper = up;
             }
+            Op::ResetForeign { .. } => unreachable!("never enabled: a success is reported before the machine update"),
             Op::Lock { slot } => {
                 let ts = n.l.unix_ts as u64;
                 let g = n.g_mut(*slot);
@@ -804,6 +827,7 @@ impl<'a> Model for LifeModel<'a> {
                 v.push(Op::Close { slot });
                 v.push(Op::Reset { slot, to: ResetTo::NewValid });
                 v.push(Op::Reset { slot, to: ResetTo::Same });
+                v.push(Op::ResetForeign { slot });
                 v.push(Op::Reset { slot, to: if g.lower % 128 == 0 { ResetTo::EqBounds } else { ResetTo::Unusable } });
                 if slot == Slot::T22 {
                     v.push(Op::Lock { slot });
